@@ -134,18 +134,19 @@ pub fn set(fm: &mut FieldMap, k: &str, v: Val) {
 /// Name the first field at which two Debug renderings differ.
 pub fn debug_diff_field(a: &str, b: &str) -> String {
     let pos = a.bytes().zip(b.bytes()).position(|(x, y)| x != y).unwrap_or(a.len().min(b.len()));
-    // walk back to the nearest "name:" token
+    // walk back to the nearest "name: " token (field names are lower-case identifiers)
     let head = &a[..pos.min(a.len())];
     let mut name = String::from("?");
     let bytes = head.as_bytes();
     let mut i = bytes.len();
     while i > 0 {
-        if bytes[i - 1] == b':' {
+        if bytes[i - 1] == b':' && (i == bytes.len() || bytes[i] == b' ') {
             let mut j = i - 1;
-            while j > 0 && (bytes[j - 1].is_ascii_alphanumeric() || bytes[j - 1] == b'_') {
+            while j > 0 && (bytes[j - 1].is_ascii_lowercase() || bytes[j - 1].is_ascii_digit() || bytes[j - 1] == b'_') {
                 j -= 1;
             }
-            if j < i - 1 {
+            let preceded_ok = j == 0 || bytes[j - 1] == b' ' || bytes[j - 1] == b'{' || bytes[j - 1] == b'(';
+            if j < i - 1 && preceded_ok && bytes[j].is_ascii_lowercase() {
                 name = head[j..i - 1].to_string();
                 break;
             }
